@@ -129,7 +129,7 @@ var opaqueHelpers = map[string]string{
 }
 
 // pipelineStage: h (transitively, through static calls) invokes user code through the
-// Generator / AliasGenerator interfaces. Such functions are stages of the run pipeline
+// Generator / AliasGenerator interfaces, or consults the recorded directory sums. Such functions are stages of the run pipeline
 // (the per-package function, the dispatch loop, the dispatchers): the rules reason about
 // their returns (error edges) and call sites as units, so they are never inlined in the
 // general form, whatever they are called. Helpers extracted *from* them still are.
@@ -147,7 +147,8 @@ func pipelineStage(p *core.Program, h *core.Func) bool {
 			continue
 		}
 		for _, c := range core.Calls(f.Body, true) {
-			if n := core.CalleeName(f.Info(), c); n == genType || n == genAlias {
+			// ... or consults the recorded sums (the cache decision, C08.R1)
+			if n := core.CalleeName(f.Info(), c); n == genType || n == genAlias || n == core.GM("pkg/sumfile", "*File", "Sum") {
 				res = true
 			}
 		}
